@@ -116,7 +116,7 @@ def _validate_url_schemes(
     except Exception as err:
         raise ValueError("Invalid YAML string") from err
     if isinstance(output, str):
-        output = {k: None for k in output.split(",")}
+        output = {k.strip(): None for k in output.split(",") if k.strip()}
     if not isinstance(output, dict):
         raise ValueError("Expecting a comma-delimited str or YAML dictionary")
     return output
